@@ -219,6 +219,11 @@ fn power_loss(data: &PathBuf, snap: &PathBuf, op: &Value) -> Value {
                 done.push(format!("zeroed {}+{} in file {}", off, len, d["file_ord"]));
             }
             "delete_file" => { deletes.push(files[d["file_ord"].as_u64().unwrap() as usize].clone()); }
+            "index_empty" => {
+                let idx = find_index(data).unwrap();
+                let _ = std::fs::OpenOptions::new().write(true).open(&idx).and_then(|f| f.set_len(0));
+                done.push("index truncated to 0 bytes".to_string());
+            }
             "index_state" => {
                 let b = d["before"].as_array().unwrap();
                 let name = format!("idx.op{}.ev{}", b[0].as_u64().unwrap(), b[1].as_u64().unwrap());
